@@ -64,8 +64,12 @@ class Violation(Exception):
 class FakeClock:
     def __init__(self):
         self.now = 1000.0
+        self.hook = None        # called on every read (used to interleave a
+                                # result arrival with a running timeout scan)
 
     def __call__(self):
+        if self.hook is not None:
+            self.hook()
         return self.now
 
 
@@ -261,7 +265,11 @@ class SimProcess:
         if counter is not None and counter.value >= self.completed:
             return True
         if CLOCK.now - self.drain_since >= 30.0:
-            self.guard_waited = True
+            # held up by the pool only if the parent had consumed all of this
+            # worker's results and still did not credit them (a schedule that
+            # leaves a READY undelivered for 30 s is the harness's doing)
+            if not any(m[0] == READY for m in self.outbox):
+                self.guard_waited = True
             return True
         return False
 
@@ -414,6 +422,7 @@ class Sim:
         install()
         CURRENT[0] = self
         CLOCK.now = 1000.0
+        CLOCK.hook = None
         bp.job_counter = itertools.count()
         self.config = config
         self.by_pid = {}
@@ -932,10 +941,57 @@ class Sim:
             return 'noop'
         self.obey_term = obey
         self.term_status = status
+        if CLOCK.hook is None:
+            self.scan_resolved = set()
         self.scan_sigpos = len(self.signals)
         pool._timeout_handler.handle_event()
         self.scans = getattr(self, 'scans', 0) + 1
         self.last_scan = CLOCK.now
+
+    def op_scanrace(self, k, w, obey=True):
+        """a timeout scan during which - at the k-th clock read, i.e. between
+        two jobs of the scan - a running worker finishes and its messages are
+        consumed by the result handler (the two handler threads racing)"""
+        pool = self.pool
+        if pool._timeout_handler is None or \
+                pool._timeout_handler._state != bp.RUN:
+            return 'noop'
+        cands = [p for p in self.alive_workers() if p.state == RUNNING]
+
+        def past_limit(p):
+            mj = self.by_jobid.get(p.current[0])
+            if mj is None or mj.kind != 'apply':
+                return False
+            lim = mj.opts.get('hard') or self.config.get('timeout')
+            part = mj.parts[None]
+            return bool(lim and part.ack_delivered and
+                        CLOCK.now >= part.ack_time + lim)
+        # the interesting race is the one on a job the scan is about to fail
+        cands = [p for p in cands if past_limit(p)] or cands
+        proc = self._pick(cands, w)
+        if proc is None:
+            return self.op_scan(obey)
+        reads = [0]
+        self.scan_resolved = set()
+
+        def hook():
+            reads[0] += 1
+            if reads[0] == k + 1:
+                CLOCK.hook = None
+                if proc.alive and self.w_finish(proc):
+                    for m in proc.outbox:      # every job these messages touch
+                        mj = self.by_jobid.get(m[1][0]) if m[0] != DEATH else None
+                        if mj is not None:
+                            self.scan_resolved.add(mj.idx)
+                    while proc.outbox:
+                        self.deliver(proc)
+                    self.labels.add('result_during_scan')
+                CLOCK.hook = None
+        CLOCK.hook = hook
+        try:
+            return self.op_scan(obey)
+        finally:
+            CLOCK.hook = None
 
     def op_adv(self, dt):
         CLOCK.now += dt
